@@ -1,6 +1,8 @@
 import SqlModel.Bookkeeping
+import SqlProofs.LeadingKeyword
 import SqlModel
 import SqlProofs.SplitValue
+import SqlProofs.Resplit
 open Sql
 
 def hexVal (ch : Char) : Nat :=
@@ -50,6 +52,14 @@ def cmdSplit (s : Array Nat) : String :=
   | .ok sts =>
     "ok " ++ " ".intercalate (sts.map fun st => toString st.length) ++ " | " ++
       " ; ".intercalate (sts.map fun st => showText (pyStrip (stmtText st)))
+
+/-- `lexstable <hex text>`: for each statement of `lexSplit`, in order, whether the Lean predicate `LexStable` (SqlProofs/Resplit.lean:
+re-lexing the stripped text of the statement gives its tokens minus the whitespace-typed tokens at both ends) holds.
+Answer: `ok` followed by one ` 1` or ` 0` per statement (just `ok` if there is no statement), or `err <PyErr>`. -/
+def cmdLexStable (s : Array Nat) : String :=
+  match lexSplit s with
+  | .error e => "err " ++ e.name
+  | .ok sts => "ok" ++ String.join (sts.map fun st => if lexStableB st then " 1" else " 0")
 
 /-- `csl <isCreate> <beginDepth> <inCase> <type.path> <hex value>` → `delta isCreate beginDepth inCase inDeclare` -/
 def cmdCsl (ws : List String) : String :=
@@ -105,6 +115,19 @@ def cmdViews (s : Array Nat) : String :=
       let v := Sql.tokView defaultSplitCfg t
       s!"{showTT v.1}|{repr v.2.1}|{v.2.2.1}|{v.2.2.2}".replace " " "_")
 
+/-- `leadhyp <hex text>`: for every statement of lexer ∘ splitter, the hypothesis of `leading_kw_survives` and the `get_type()` the theorem
+predicts: `ok <0|1>:<hex of predicted type or -> …` -/
+def cmdLeadHyp (s : Array Nat) : String :=
+  match lexSplit s with
+  | .error e => "err " ++ e.name
+  | .ok sts =>
+    "ok " ++ " ".intercalate (sts.map fun st =>
+      let hyp := Sql.LeadHyp kwNorm st
+      let pred := match st.dropWhile Sql.skipTok with
+        | k :: _ => ",".intercalate ((kwNorm k.val).map hexOf)
+        | [] => "-"
+      s!"{if hyp then 1 else 0}:{pred}")
+
 -- >>> bookkeeping (heap) command ---------------------------------------------------------------
 /-- `heap <leaf> … # <op> …`: leaf = comma-joined hex code points (`-` = empty); op = `self:Class:start:stop:includeEnd:extend`.
 Answers `ok <result> … | <object> …` with result = id of `grp` or the exception name, object = `id:parent:kids:Class:value`. -/
@@ -140,12 +163,14 @@ def handle (line : String) : String :=
   | "re" :: rest => cmdRe (parseText rest)
   | "lex" :: rest => cmdLex (parseText rest)
   | "split" :: rest => cmdSplit (parseText rest)
+  | "lexstable" :: rest => cmdLexStable (parseText rest)
   | "csl" :: rest => cmdCsl rest
   | "quiet" :: rest => cmdQuiet (parseText rest)
   | "views" :: rest => cmdViews (parseText rest)
   | "parse" :: rest => cmdParse rest
   | "group" :: rest => cmdGroup rest
   | "heap" :: rest => cmdHeap rest
+  | "leadhyp" :: rest => cmdLeadHyp (parseText rest)
   | "acc" :: rest => Sql.Driver.cmdAcc rest   -- accessors (SqlModel/AccDriver.lean), stream S-ACC
   -- >>> formatting-side commands (SqlModel/FilterDriver.lean)
   | "opt" :: rest => Sql.Driver.cmdOpt rest
@@ -156,6 +181,7 @@ def handle (line : String) : String :=
   | "caseconv" :: rest => Sql.Driver.cmdCaseConv rest
   | "fmtstmt" :: rest => Sql.Driver.cmdFmtStmt rest
   | "fmt" :: rest => Sql.Driver.cmdFmt rest
+  | "filtersafe" :: rest => Sql.Driver.cmdFilterSafe rest
   -- <<< formatting-side commands
   | _ => "bad-request"
 
